@@ -38,36 +38,46 @@ type runStats struct {
 }
 
 // Catalogue: configurations whose transition tables are extracted (until closed).
-func Catalogue(tier string) []*WSystem {
-	l := []*WSystem{
+func Catalogue(tier string) []core.System {
+	l := []core.System{
 		// manager with kernel maps: every operation, expiry
-		{name: "map-t2", NM: 2, Maps: true, T: 2, Sets: []int{0}, Advs: []int{1}},
-		{name: "map-t1", NM: 2, Maps: true, T: 1, Sets: []int{0, 3}, Advs: []int{1, 3}, Vlans: []int{5, 300}},
-		{name: "map-t0", NM: 1, Maps: true, T: 0, Sets: []int{0, 1, 2, 3}, Advs: []int{1}},
+		&WSystem{name: "map-t2", NM: 2, Maps: true, T: 2, Sets: []int{0}, Advs: []int{1}},
+		&WSystem{name: "map-t1", NM: 2, Maps: true, T: 1, Sets: []int{0, 3}, Advs: []int{1, 3}, Vlans: []int{5, 300}},
+		&WSystem{name: "map-t0", NM: 1, Maps: true, T: 0, Sets: []int{0, 1, 2, 3}, Advs: []int{1}},
 		// a subscriber map with room for two entries and three MACs
-		{name: "full", NM: 3, Maps: true, T: 2, Full: 2, Ops: []string{"add", "rel", "blk", "rm"}},
+		&WSystem{name: "full", NM: 3, Maps: true, T: 2, Full: 2, Ops: []string{"add", "rel", "blk", "rm"}},
 		// no kernel maps (the manager as cmd/bng runs it)
-		{name: "nomap", NM: 2, Maps: false, T: 1, Sets: []int{0, 2}},
+		&WSystem{name: "nomap", NM: 2, Maps: false, T: 1, Sets: []int{0, 2}},
 		// allowed destinations: triples that differ in one component only, a destination configured twice
-		{name: "dests", NM: 1, Maps: true, T: 1, Order: true, Ops: []string{"add", "rel", "rm", "adv"}, DNS: []int{1, 2, 1}, Portal: [2]int{3, 53},
+		&WSystem{name: "dests", NM: 1, Maps: true, T: 1, Order: true, Ops: []string{"add", "rel", "rm", "adv"}, DNS: []int{1, 2, 1}, Portal: [2]int{3, 53},
 			Custom: [][3]int{{1, 53, 6}, {1, 17, 53}, {4, 443, 6}, {4, 443, 17}, {5, 443, 6}, {3, 53, 6}, {2, 13568, 17}}},
 	}
+	// pkg/wifi gateway sessions
+	l = append(l,
+		&GSystem{name: "gw-portal", NM: 2, L: 3, GP: 1, Portal: true, Advs: []int{1}},
+		&GSystem{name: "gw-open", NM: 2, L: 1, GP: 1, Portal: false, Advs: []int{1, 3}},
+		&GSystem{name: "gw-reuse", NM: 2, NIP: 2, L: 2, GP: 2, Portal: true, Reuse: true, Advs: []int{1}},
+	)
 	if tier == "thorough" {
 		l = append(l,
 			&WSystem{name: "map-3", NM: 3, Maps: true, T: 1, Sets: []int{}, Advs: []int{1}},
 			&WSystem{name: "map-t3", NM: 2, Maps: true, T: 3, Sets: []int{0, 1, 2, 3}, Advs: []int{1, 2}, Vlans: []int{5, 4094}},
 			&WSystem{name: "full-1", NM: 2, Maps: true, T: 1, Full: 1, Sets: []int{0}},
+			&GSystem{name: "gw-3", NM: 3, L: 2, GP: 1, Portal: true, Advs: []int{1}},
+			&GSystem{name: "gw-grace-long", NM: 2, L: 1, GP: 3, Portal: true, Advs: []int{1, 2}},
 		)
 	}
 	return l
 }
 
 // ChainCatalogue: configurations driven by long seeded random sequences.
-func ChainCatalogue() []*WSystem {
-	return []*WSystem{
-		{name: "rnd-map", NM: 5, Maps: true, T: 3, Sets: []int{0, 1, 2, 3}, Advs: []int{1, 1, 2, 5}, Vlans: []int{1, 5, 4094}},
-		{name: "rnd-full", NM: 5, Maps: true, T: 2, Full: 3, Sets: []int{0, 3}, Advs: []int{1}},
-		{name: "rnd-nomap", NM: 4, Maps: false, T: 2, Sets: []int{0, 1, 2, 3}, Advs: []int{1, 4}},
+func ChainCatalogue() []core.System {
+	return []core.System{
+		&WSystem{name: "rnd-map", NM: 5, Maps: true, T: 3, Sets: []int{0, 1, 2, 3}, Advs: []int{1, 1, 2, 5}, Vlans: []int{1, 5, 4094}},
+		&WSystem{name: "rnd-full", NM: 5, Maps: true, T: 2, Full: 3, Sets: []int{0, 3}, Advs: []int{1}},
+		&GSystem{name: "rnd-gw", NM: 4, L: 3, GP: 2, Portal: true, Advs: []int{1, 1, 2, 5}},
+		&GSystem{name: "rnd-gw-reuse", NM: 4, NIP: 3, L: 2, GP: 1, Portal: true, Reuse: true, Advs: []int{1}},
+		&WSystem{name: "rnd-nomap", NM: 4, Maps: false, T: 2, Sets: []int{0, 1, 2, 3}, Advs: []int{1, 4}},
 	}
 }
 
@@ -75,16 +85,33 @@ func raceSystem() *WSystem {
 	return &WSystem{name: "race", NM: 2, Maps: true, T: 1, Ops: []string{"add", "rel", "blk", "rm", "adv", "race", "trace"}, RaceN: 50000}
 }
 
-func find(name string) *WSystem {
+func find(name string) core.System {
 	for _, s := range append(append(Catalogue("thorough"), ChainCatalogue()...), raceSystem()) {
-		if s.name == name {
+		if s.Name() == name {
 			return s
 		}
 	}
 	return nil
 }
 
-func randomChain(sys *WSystem, rng *rand.Rand, n int) []core.Event {
+// sysFromCfg rebuilds a system of either kind from the configuration recorded in a bundle / replay file.
+func sysFromCfg(name string, c map[string]any) core.System {
+	if c == nil {
+		return nil
+	}
+	if c["kind"] == "gw" {
+		if g := gwFromCfg(name, c); g != nil {
+			return g
+		}
+		return nil
+	}
+	if w := fromCfg(name, c); w != nil {
+		return w
+	}
+	return nil
+}
+
+func randomChain(sys core.System, rng *rand.Rand, n int) []core.Event {
 	evs := sys.Events()
 	var out []core.Event
 	for len(out) < n {
@@ -121,7 +148,7 @@ func TestExplore(t *testing.T) {
 			continue
 		}
 		// bubbles strictly one after the other (go1.25.0 bubbles must not overlap)
-		tab, panics, err := core.Explore(sys, core.ExploreOptions{MaxDepth: sys.MaxDepth, MaxNodes: maxNodes, AdequacySample: 20, Seed: seed, Workers: 1})
+		tab, panics, err := core.Explore(sys, core.ExploreOptions{MaxNodes: maxNodes, AdequacySample: 20, Seed: seed, Workers: 1})
 		if err != nil {
 			t.Fatalf("explore %s: %v", sys.Name(), err)
 		}
@@ -187,7 +214,7 @@ func TestExplore(t *testing.T) {
 			t.Fatal(err)
 		}
 		for _, c := range rf.Cases {
-			sys := fromCfg(c.System, c.Cfg)
+			sys := sysFromCfg(c.System, c.Cfg)
 			if sys == nil {
 				t.Fatalf("extra case %s: no configuration", c.ID)
 			}
@@ -214,6 +241,10 @@ func TestExplore(t *testing.T) {
 func clean(in []core.Event) []core.Event {
 	evs := make([]core.Event, 0, len(in))
 	for _, e := range in {
+		if _, gw := e["ip"]; gw { // a WiFi-gateway step
+			evs = append(evs, gmk(fmt.Sprint(e["op"]), toInt(e["m"]), toInt(e["ip"]), toInt(e["dt"])))
+			continue
+		}
 		evs = append(evs, mk(fmt.Sprint(e["op"]), toInt(e["m"]), toInt(e["s"]), toInt(e["v"]), toInt(e["dt"])))
 	}
 	return evs
@@ -237,7 +268,7 @@ func replay(t *testing.T, file, out string) {
 		}
 		sys := find(name)
 		if sys == nil {
-			sys = fromCfg(name, c.Cfg)
+			sys = sysFromCfg(name, c.Cfg)
 		}
 		if sys == nil {
 			t.Fatalf("unknown system %q", c.System)
